@@ -22,7 +22,7 @@ func extractStages() {
 	s.boolean("preIncludeShape", strings.Contains(ps, incl))
 	s.boolean("preExcludeShape", strings.Contains(ps, excl))
 	extractScope(s)
-	extractPostEarly(s)
+	earlyGuards := extractPostEarly(s)
 	extractGuards(s)
 	s.boolean("preIncludeBeforeExclude", strings.Index(ps, incl) >= 0 && strings.Index(ps, incl) < strings.Index(ps, excl))
 	reject := "ifitems[i].IsChild()||items[i].IsRedirection(){items[i].GetParent().RemoveChild(items[i])continue}items[i].SetStatus(models.ItemCompleted)return}"
@@ -119,14 +119,32 @@ func extractStages() {
 	} else {
 		s.missing("depthCut", "Nat", "0")
 	}
-	s.boolean("depthCutShape", strings.Contains(is, "if!domainscrawl.Enabled()&&item.GetDepthWithoutRedirections()>2{") ||
-		strings.Contains(is, "if!domainscrawl.Enabled()&&item.GetDepthWithoutRedirections()"))
-	s.boolean("depthOneHtmlRule", strings.Contains(is, `}elseif!domainscrawl.Enabled()&&(item.GetDepthWithoutRedirections()==1&&strings.Contains(item.GetURL().GetMIMEType().String(),"html")){`))
+	// the three arms of the "nothing to extract here" chain, read off its translation (what exactly the arms decide is the theorem
+	// c06_depth_tests_translated; these flags only say which arms exist)
+	has := func(parts ...string) bool {
+		for _, g := range earlyGuards {
+			all := true
+			for _, p := range parts {
+				all = all && strings.Contains(g, p)
+			}
+			if all {
+				return true
+			}
+		}
+		return false
+	}
+	understood := len(earlyGuards) > 0
+	for _, g := range earlyGuards {
+		understood = understood && !strings.Contains(g, ".unknown")
+	}
+	s.boolean("postTestsUnderstood", understood)
+	s.boolean("depthCutShape", has("(.not (.atom .domainsCrawl))", "(.atom (.depthCmp "))
+	s.boolean("depthOneHtmlRule", has("(.not (.atom .domainsCrawl))", "(.atom (.depthCmp .eq 1))", "(.atom .mimeHtml)"))
 	dar := "unknown"
 	switch {
-	case strings.Contains(is, "}elseifconfig.Get().DisableAssetsCapture&&!domainscrawl.Enabled()&&config.Get().MaxHops==0{"):
+	case has("(.atom .disableAssets)", "(.not (.atom .domainsCrawl))", "(.atom (.maxHopsCmp .eq 0))"):
 		dar = "whenNoHops"
-	case strings.Contains(is, "}elseifconfig.Get().DisableAssetsCapture&&!domainscrawl.Enabled(){"):
+	case has("(.atom .disableAssets)", "(.not (.atom .domainsCrawl))"):
 		dar = "always" // completes the node before the outlink extraction even when hops are allowed
 	}
 	s.str("disableAssetsRule", dar, dar != "unknown")
